@@ -23,7 +23,7 @@ ASSUMPTIONS = ["objects are built from library symbols: note values inside the l
 
 DURS = [F(1), F(1), F(1, 2), F(1, 4), F(1, 8), F(2), F(4), F(3, 2), F(3), F(6), F(3, 4), F(3, 8), F(3, 16), F(8, 3), F(4, 3), F(2, 3), F(1, 3),
         F(1, 6), F(1, 12), F(8, 5), F(4, 5), F(2, 5), F(1, 5), F(1, 10), F(1, 20), F(8, 7), F(4, 7), F(2, 7), F(1, 7), F(1, 14), F(1, 28),
-        F(5), F(7, 3), F(9, 8), F(16), F(5, 4), F(999, 1000), F(11, 8), F(7)]
+        F(5), F(7, 3), F(9, 8), F(16), F(5, 4), F(999, 1000), F(11, 8), F(7), F(0)]
 AMPS = [66, 0, 1, 19, 20, 31, 32, 43, 44, 60, 61, 78, 79, 96, 97, 108, 109, 114, 120, 127, "ppp", "pp", "p", "mp", "mf", "f", "ff", "fff"]
 FAMILIES = ["s", "h", "c", "b", "a", "su", "sd", "hu", "hd", "cu", "cd", "bu", "bd", "d", "x", "r", "l"]
 LIBMAX = {"s": 7, "h": 12, "c": 12, "b": 12, "a": 15, "d": 12, "x": 23}
@@ -490,7 +490,7 @@ class Tabular(Stream):
                         x["dur"] = rng.choice([F(1), F(1, 2), F(1, 4), F(3, 2), F(1, 8), F(3, 8), F(2), F(3, 4)])
                         if _ % 4 == 1 and rng.random() < 0.25:
                             x["dur"] = F(0)             # the empty duration (.n): two rows of one part then share their start time
-            yield {"score": sg.equalize(sc)}
+            yield {"score": sg.equalize(sc), "sort": _ % 2 == 1}
             if _ % 25 == 0:
                 # a table of a few hundred rows, the parts of every chord in another order
                 names = ["piano__0", "violin__0", "flute__0", "cello__0", "harp__0", "oboe__0", "viola__0"][:rng.randrange(4, 8)]
@@ -500,13 +500,15 @@ class Tabular(Stream):
                     big.append({"elem": rng.randrange(7), "fig": "", "tdeg": rng.randrange(12), "tmode": "M", "toct": 0, "coct": 0,
                                 "parts": [[nm, [{"kind": "s", "val": rng.randrange(7), "oct": 0, "dur": rng.choice([F(1), F(1, 2)]), "amp": 66}
                                                 for _n in range(rng.randrange(2, 5))]] for nm in order]})
-                yield {"score": sg.equalize(big)}
+                yield {"score": sg.equalize(big), "sort": _ % 50 == 0}
 
     def impl(self, case):
         def f():
             from musiclang import Score
             sc = sg.mk_rscore(case["score"])
-            s2 = Score.from_sequence(sc.to_sequence())
+            # half of the cases with the documented option sort_by_time=True: re-sorting a table that is already in time order changes nothing
+            opts = {"sort_by_time": True} if case.get("sort") else {}
+            s2 = Score.from_sequence(sc.to_sequence(), **opts)
             a = sg.merge_rows(sg.impl_rows(sc))
             b = sg.merge_rows(sg.impl_rows(s2))
             hdr = lambda x: [[int(c.element), str(c.extension), int(c.tonality.degree), c.tonality.mode, int(c.tonality.octave), int(c.octave)] for c in x.chords]
@@ -528,7 +530,7 @@ class Tabular(Stream):
 
     def shrink(self, case):
         for s in sg.shrink_score(case["score"]):
-            yield {"score": sg.equalize(s)}
+            yield dict(case, score=sg.equalize(s))
 
 
 class OperationTexts(Stream):
@@ -541,7 +543,17 @@ class OperationTexts(Stream):
 
     def gen(self, rng, n):
         for i in range(n):
-            kind = ["window", "toneless", "custom_figure", "window", "toneless", "custom_figure", "empty_part"][i % 7]
+            kind = ["window", "toneless", "custom_figure", "window", "toneless", "custom_figure", "empty_part", "suffix_chain", "empty_text"][i % 9]
+            if kind == "suffix_chain":
+                # a note written as a library symbol followed by two or three rhythmic suffixes (s0.e3.e5, s0.t7.t7.t7): its text reads back equal
+                yield {"kind": kind, "base": rng.choice(["s0", "s4", "h3", "c1", "r", "l", "su1"]),
+                       "sufs": [rng.choice(["t7", "e7", "s5", "t3", "e3", "q3", "h5", "t5", "s7", "qd", "ed", "e5", "q7"]) for _ in range(rng.choice([2, 2, 3]))]}
+                continue
+            if kind == "empty_text":
+                # objects without a note: a chord holding a part emptied by slicing (melody[k:]), the empty score (score * 0)
+                yield {"kind": kind, "which": rng.choice(["part", "part", "score"]), "elem": rng.randrange(7),
+                       "melody": [dict(rand_note(rng, families=["s", "h", "r", "l", "c"]), tags=[]) for _ in range(rng.randrange(1, 4))]}
+                continue
             if kind == "empty_part":
                 # a part emptied by slicing past its end (melody[k:]): not written in the text form, but deep copies and pickles of the
                 # chord and of its score are equal objects
@@ -575,6 +587,28 @@ class OperationTexts(Stream):
                     return {"none": True}
             elif case["kind"] == "toneless":
                 x = Chord(case["elem"], extension=case["fig"], octave=case["coct"])(piano__0=Melody([mk_note(n) for n in case["melody"]])).to_score()
+            elif case["kind"] == "suffix_chain":
+                import musiclang.library as lib
+                n = getattr(lib, case["base"])
+                for sf in case["sufs"]:
+                    n = getattr(n, sf)
+                try:
+                    back = eval(str(n), vars(lib))
+                    ok = bool(back == n and n == back and F(back.duration) == F(n.duration))
+                except Exception as e:
+                    ok = False
+                return {"chain": True, "text": str(n), "ok": ok, "den": F(n.duration).denominator}
+            elif case["kind"] == "empty_text":
+                mel = Melody([mk_note(n) for n in case["melody"]])
+                ch = Chord(case["elem"], tonality=Tonality(0))(piano__0=mel, violin__0=mel[len(mel.notes):])
+                x = ch.to_score() if case["which"] == "part" else ch.to_score() * 0
+                try:
+                    back = Score.from_str(str(x))
+                    back = back.to_score() if not isinstance(back, Score) else back
+                    ok = bool(back == x)
+                except Exception as e:
+                    ok = False
+                return {"empty": True, "text": str(x)[:120], "ok": ok}
             elif case["kind"] == "empty_part":
                 import copy as _copy, pickle as _pickle
                 mel = Melody([mk_note(n) for n in case["melody"]])
@@ -600,6 +634,16 @@ class OperationTexts(Stream):
         if mlang.is_exc(r):
             return {"sig": f"operation-text-raises:{case['kind']}", "msg": str(r)}
         if r.get("none"):
+            return None
+        if r.get("chain"):
+            if not r["ok"]:
+                if r["den"] > 1000:
+                    return {"sig": "text-roundtrip:duration-finer-than-1/1000", "msg": f"{r['text']} (stored denominator {r['den']})"}
+                return {"sig": "operation-text-roundtrip:suffix_chain", "msg": r["text"]}
+            return None
+        if r.get("empty"):
+            if not r["ok"]:
+                return {"sig": "text-roundtrip:object-without-notes", "msg": f"{case['which']}: {r['text']!r}"}
             return None
         if "copies" in r:
             if not all(all(c) for c in r["copies"]):
